@@ -55,6 +55,8 @@ class _Ctx:
         self.update_calls = 0
         self.update_cap = None
         self.cand_calls = 0
+        self.attempt_grows = 0
+        self.attempt_fail_after = None
         self.added = set()
         self.grown_from = {}
         self.ignored_mols = set()
@@ -136,6 +138,9 @@ def _install(ctx):
         ctx.rec.emit("grow", mol=mol, cur=current_node, prev=prev_node)
         _oracle_grow(ctx, self, current_node, prev_node)
         t = ctx.tape.next("step")
+        if ctx.attempt_fail_after is not None and ctx.attempt_grows >= ctx.attempt_fail_after:
+            t = 1      # scripted failure of the whole attempt: every further step fails until it is abandoned
+            ctx.fault("attempt_forced_fail_step")
         if t == 1:
             ctx.fault("step_forced_fail")
             ctx.rec.emit("grown", r="forced_fail")
@@ -151,6 +156,7 @@ def _install(ctx):
             ctx.in_step = None
             ctx.force_reject_step = False
         if ok:
+            ctx.attempt_grows += 1
             ctx.rec.emit("grown", r="ok")
             ctx.rec.symbol("G")
         else:
@@ -198,6 +204,12 @@ def _install(ctx):
         mol = self.mol_idx
         _oracle_attempt_begin(ctx, self, meta_molecule)
         ctx.cur_attempt = {"mol": mol, "proc": self}
+        ctx.attempt_grows = 0
+        ctx.attempt_fail_after = None
+        if ctx.tape.next("attempt"):
+            nbuild = sum(1 for n in meta_molecule.nodes if meta_molecule.nodes[n].get("build", True))
+            ctx.attempt_fail_after = nbuild // 2
+            ctx.fault("attempt_forced_fail")
         ctx.rec.emit("attempt_begin", mol=mol, start=np.asarray(self.start, dtype=float),
                      start_node=self.start_node)
         try:
